@@ -796,6 +796,10 @@ class Api(object):
         self.ns = self.nsel.get('name')
         self.lines = []
         self.kinds = {}
+        self.bad_bytearray = any(
+            a.get('name') == 'GLib.ByteArray' and not ([c.get('name') for c in a if c.tag in (q('type'), q('array'))][:1] == ['guint8']
+                                                         and [c.tag for c in a if c.tag in (q('type'), q('array'))][0] == q('type'))
+            for a in self.root.iter(q('array')))
         self.entries = [e for e in self.nsel if self.entry_kind(e) is not None and not self.skipped(e)]
         for e in self.entries:
             self.kinds[self.entry_name(e)] = self.entry_kind(e)
@@ -894,12 +898,13 @@ class Api(object):
             self.p('%s array array_type=%d length=%s fixed_size=%s zero_terminated=%d' % (
                 path, at, length if length is not None else '-1', fixed if fixed is not None else '-1', ztv))
             subs = [c for c in t if c.tag in (q('type'), q('array'))]
-            if subs:
-                self.dump_type(path + '.p0', subs[0], ctx)
-            elif at == 3:
-                # a GLib.ByteArray without an element type is not valid GIR (its element is guint8 by definition;
-                # girnode.c names the type "GByteArray" whatever the element): outside, not judged
+            if at == 3 and self.bad_bytearray:
+                # a GLib.ByteArray whose element is missing or not guint8 is not valid GIR; girnode.c names the
+                # type "GByteArray" whatever the element, so ALL byte arrays of the namespace share one blob:
+                # outside the quantifier, byte-array elements of such a GIR are not judged
                 self.p('%s.p0 type tag=* pointer=*' % path)
+            elif subs:
+                self.dump_type(path + '.p0', subs[0], ctx)
             else:
                 self.p('%s.p0 type tag=0 pointer=%s' % (path, '*' if gen else 1))
             return
@@ -1718,19 +1723,19 @@ def run(ctx):
     n_corr = 0
     disagreeing = []
     hyp_names = ('sizes_match_table', 'attrs_sorted', 'union_fields_plain', 'field_callbacks_counted', 'blobs_aligned',
-                 'no_discriminated_union')
+                 'no_discriminated_union', 'boxed_funcs_unset')
     for idx, (c, r) in enumerate(compiled):
         if answers is None:
             break
         model, hyps = answers[2 * idx], answers[2 * idx + 1]
         for h in hyp_names:
-            if not hyps[h]:
+            if not hyps.get(h, True):
                 cnt.hit('hypothesis-unmet:' + h)
                 if cnt.counts['hypothesis-unmet:' + h] <= 2:
                     ctx.broken.append('hypothesis %s of the C09 theorems is not met by a typelib the real compiler produced (%s %s)'
                                       % (h, c[0], c[1]))
-        for k in ('deprecated_unions', 'n_objects', 'n_odd_interface_objects', 'n_embedded_fields', 'n_attributes'):
-            cnt.hit('typelib:' + k, hyps[k])
+        for k in ('deprecated_unions', 'n_objects', 'n_odd_interface_objects', 'n_embedded_fields', 'n_attributes', 'n_boxed'):
+            cnt.hit('typelib:' + k, hyps.get(k, 0))
         if r.get('walk_rc') == 0:
             if model != r['walk']:
                 n_corr += 1
@@ -1815,7 +1820,8 @@ def run(ctx):
         'bsearch() is modelled as returning ANY element with an equal key (NULL only if none): glibc is not verified',
         'g_base_info_iterate_attributes reads next->offset before the bound check (one AttributeBlob past the table, inside the mapped file): memory safety is not modelled',
         'hypotheses of the theorems checked on every compiled typelib by the driver: header blob sizes = sizeof table, attribute table sorted, '
-        'no embedded callback in union fields, n_field_callbacks = number of embedded fields, no discriminated unions',
+        'no embedded callback in union fields, n_field_callbacks = number of embedded fields, no discriminated unions, '
+        'no copy/free function stored in a BLOB_TYPE_BOXED StructBlob',
         'cross-namespace references are compared by qualified name only (the kind of a foreign entry is not in this typelib)',
     ])
 
